@@ -57,7 +57,7 @@ CHECKS = {
           "(c09_continues); tied by the reader-dispatch differential on the real on_received_request of both kinds.",
   "ref": "DESIGN.md §5 C09",
   "note": "trusted: Lean kernel; layouts hand-written; the decorator's catch-all is modelled and compared on every malformed input",
-  "technique": "Lean 4 proof + malformed-stream differential correspondence"},
+  "technique": "Lean 4 proof + malformed-stream differential correspondence + structural skeleton of the concurrent code regenerated from the source (translator) and compared by theorem"},
  "C07": {
   "text": "Lean theorems per writer (names, per-item data, notify-user, update events incl. base64 round trip for any bytes, EOS/CLS, "
           "failure, credentials, init replies): the line is joinBar of an explicit token list whose length depends only on the shape "
@@ -75,7 +75,7 @@ CHECKS = {
           "over exhaustive <=2/3-cut segmentations, byte-at-a-time and random segmentations, and malformed streams for fidelity.",
   "ref": "DESIGN.md §5 C15",
   "note": "trusted: Lean kernel; str.splitlines modelled (compared, not verified); parse_request's terminator stripping is C06",
-  "technique": "Lean 4 proof (induction over chunks with a buffer invariant) + exhaustive-segmentation differential"},
+  "technique": "Lean 4 proof (induction over chunks with a buffer invariant) + exhaustive-segmentation differential + structural skeleton of the concurrent code regenerated from the source (translator) and compared by theorem"},
  "C13": {
   "text": "Lean theorems over the timed model of the writer loop: c13_full_silence (a timeout KEEPALIVE comes exactly one interval after the "
           "previous write, the interval read when that wait began), c13_gap (after every write followed by a wait with positive interval "
@@ -84,7 +84,7 @@ CHECKS = {
           "Tied by running the real _Sender thread under the scheduler with virtual time and comparing (time, line) sequences.",
   "ref": "DESIGN.md §5 C13",
   "note": "trusted: Lean kernel; scheduler shim incl. virtual clock; real timers not modelled (bounds exact in virtual time only)",
-  "technique": "Lean 4 proof (induction over timed event histories) + virtual-time co-simulation of the real writer thread"},
+  "technique": "Lean 4 proof (induction over timed event histories) + virtual-time co-simulation of the real writer thread + structural skeleton of the concurrent code regenerated from the source (translator) and compared by theorem"},
  "C14": {
   "text": "Lean theorems c14_first (every interleaving of start(), writer and all reader-side producers: the first message queued/written "
           "is the credentials message with id 1), c14_others_later, c14_content (via C07's credentials theorems), c14s_first (the same on the "
@@ -93,7 +93,7 @@ CHECKS = {
           "writers differential of write_credentials; the first wire line checked on every real run.",
   "ref": "DESIGN.md §5 C14",
   "note": "trusted: Lean kernel; scheduler shim; Startup.lean's guard ('other producers exist only after the reader started') validated by co-simulation",
-  "technique": "Lean 4 proof (invariant over all interleavings of a start-up model) + lock-step co-simulation"},
+  "technique": "Lean 4 proof (invariant over all interleavings of a start-up model) + lock-step co-simulation + structural skeleton of the concurrent code regenerated from the source (translator) and compared by theorem"},
  "C16": {
   "text": "Lean theorems c16_fifo (lines written that are not keepalives = messages enqueued, in order, none lost or duplicated — from C13's "
           "writer model), c16_append_only (every step of an item's machine only appends to the outbound sequence), c16_inside (an adapter "
@@ -103,7 +103,7 @@ CHECKS = {
           "co-simulation (written byte stream vs enqueue events on every run) and the writer co-simulation.",
   "ref": "DESIGN.md §5 C16",
   "note": "trusted: Lean kernel; scheduler shim (Queue FIFO); one sendall = one contiguous line is the OS's",
-  "technique": "Lean 4 proof + lock-step co-simulation"},
+  "technique": "Lean 4 proof + lock-step co-simulation + structural skeleton of the concurrent code regenerated from the source (translator) and compared by theorem"},
  "C10": {
   "text": "Lean theorems over the model of the (sequential) reader thread: c10_once (initialize at most once over any line sequence), "
           "c10_initialize_only_first (only for an init request, only while awaited, slot consumed), c10_init_order (initialize, then "
@@ -112,7 +112,7 @@ CHECKS = {
           "real Server.on_received_request (both kinds) with recording stubs, the statements also evaluated on the real action log.",
   "ref": "DESIGN.md §5 C10",
   "note": "trusted: Lean kernel; Dispatch.lean hand-written, tied by differential; DESIGN I-1 (a malformed/refused first init consumes the slot)",
-  "technique": "Lean 4 proof (case analysis + induction over line sequences) + sequential differential of the real reader code"},
+  "technique": "Lean 4 proof (case analysis + induction over line sequences) + sequential differential of the real reader code + structural skeleton of the concurrent code regenerated from the source (translator) and compared by theorem"},
  "C20": {
   "text": "Lean theorems c20_close (honoured close request: exactly quit, pool shutdown, socket close; no handler), c20_ignored, c20_bad_id, "
           "c20_io_failure (handler notified exactly once iff installed; exit iff absent or true), c20_read_after_close, "
@@ -121,7 +121,7 @@ CHECKS = {
           "absent/True/False/None, pool tasks in flight) and by the reader-dispatch differential.",
   "ref": "DESIGN.md §5 C20",
   "note": "trusted: Lean kernel; scheduler shim with scripted socket; os._exit substituted; real socket/exit semantics are the OS's",
-  "technique": "Lean 4 proof (case analysis) + fault-injection co-simulation + sequential differential"},
+  "technique": "Lean 4 proof (case analysis) + fault-injection co-simulation + sequential differential + structural skeleton of the concurrent code regenerated from the source (translator) and compared by theorem"},
  "C04": {
   "text": "Lean theorems over the pool model for every interleaving of submissions, task starts (any pool size), adapter call begins/ends "
           "with every outcome, and reply enqueues: c04_once (an unfinished task has produced nothing; a finished one exactly one of {one "
@@ -133,7 +133,7 @@ CHECKS = {
           "oracles, and the closures differential for dispatch and reply kind.",
   "ref": "DESIGN.md §5 C04",
   "note": "trusted: Lean kernel; scheduler shim; metaExec hand-written (tied by differential)",
-  "technique": "Lean 4 proof (invariant over all interleavings of the pool model) + lock-step co-simulation + differential"},
+  "technique": "Lean 4 proof (invariant over all interleavings of the pool model) + lock-step co-simulation + differential + structural skeleton of the concurrent code regenerated from the source (translator) and compared by theorem"},
  "C18": {
   "text": "Lean theorems: c18_size (pool size from the constructor argument, over Gen.poolSize regenerated from the source each run), c18_bound "
           "(running = started unfinished tasks <= n), c18_one_sequential (n = 1: at most one active task), c18_fifo_start (tasks start in "
@@ -141,7 +141,7 @@ CHECKS = {
           "co-simulations (thread identity of every adapter call, enabled-set comparison, blocking adapter calls) and the constructor differential.",
   "ref": "DESIGN.md §5 C18",
   "note": "trusted: Lean kernel; translator for Gen/Pool.lean; scheduler shim's pool = ThreadPoolExecutor; cpu_count is a parameter",
-  "technique": "Lean 4 proof (invariant over the pool model; generated sizing function) + lock-step co-simulation"},
+  "technique": "Lean 4 proof (invariant over the pool model; generated sizing function) + lock-step co-simulation + structural skeleton of the concurrent code regenerated from the source (translator) and compared by theorem"},
  "C01": {
   "text": "Lean theorems c01_at_most_once (no id answered twice), c01_reply_for_request, c01_never_lost (an unsubscription always finds its bookkeeping), c01_quiescent (at quiescence every arrived request is answered), c01_progress (no deadlock), and the one-step theorems fixing what each reply says (late SUB -> SubscribeError 'too late'; subscribe/unsubscribe returned -> V, raised -> the adapter's error; nothing to undo -> V). Proof: Conc/InvProof.lean shows the ~45-clause invariant Inv inductive for every action of the per-item machine (inv_reach: every "
           "state reachable by any schedule / arrival timing / adapter outcomes with a well-formed history satisfies Inv); the property theorems "
@@ -149,7 +149,7 @@ CHECKS = {
           "enabled threads and the invariant compared after every chunk), fine-grained line-level-preemption runs with trace oracles.",
   "ref": "DESIGN.md §0a, §3, §5 C01",
   "note": "trusted: Lean kernel; Conc/Item.lean hand-written (tied by co-simulation); scheduler shim; WF hypothesis on the request history",
-  "technique": "Lean 4 proof (inductive invariant over all schedules of a small-step model) + lock-step co-simulation of the real server"},
+  "technique": "Lean 4 proof (inductive invariant over all schedules of a small-step model) + lock-step co-simulation of the real server + structural skeleton of the concurrent code regenerated from the source (translator) and compared by theorem"},
  "C02": {
   "text": "Lean theorems c02_no_overlap (at most one thread inside an adapter call per item), c02_order (processing strictly in arrival order), c02_paired (unsubscribe begins only after the preceding request's subscribe returned normally), c02_usb_after_failure, c02_skip_only_if_later, c02_latest_executed. Proof: Conc/InvProof.lean shows the ~45-clause invariant Inv inductive for every action of the per-item machine (inv_reach: every "
           "state reachable by any schedule / arrival timing / adapter outcomes with a well-formed history satisfies Inv); the property theorems "
@@ -157,7 +157,7 @@ CHECKS = {
           "enabled threads and the invariant compared after every chunk), fine-grained line-level-preemption runs with trace oracles.",
   "ref": "DESIGN.md §0a, §3, §5 C02",
   "note": "trusted: Lean kernel; Conc/Item.lean hand-written (tied by co-simulation); scheduler shim; WF hypothesis on the request history",
-  "technique": "Lean 4 proof (inductive invariant over all schedules of a small-step model) + lock-step co-simulation of the real server"},
+  "technique": "Lean 4 proof (inductive invariant over all schedules of a small-step model) + lock-step co-simulation of the real server + structural skeleton of the concurrent code regenerated from the source (translator) and compared by theorem"},
  "C03": {
   "text": "Lean theorems c03_tag (an id read by a listener call is the id of an executed subscription of this item), c03_forward (while the forwarding window of r is open every listener read returns r), c03_window_opens, c03_drop (never subscribed / unsubscription fully processed => dropped), c03_not_stale (an id read is always the most recently published one), c03_read_builds_line. Proof: Conc/InvProof.lean shows the ~45-clause invariant Inv inductive for every action of the per-item machine (inv_reach: every "
           "state reachable by any schedule / arrival timing / adapter outcomes with a well-formed history satisfies Inv); the property theorems "
@@ -165,7 +165,7 @@ CHECKS = {
           "enabled threads and the invariant compared after every chunk), fine-grained line-level-preemption runs with trace oracles.",
   "ref": "DESIGN.md §0a, §3, §5 C03",
   "note": "trusted: Lean kernel; Conc/Item.lean hand-written (tied by co-simulation); scheduler shim; WF hypothesis on the request history",
-  "technique": "Lean 4 proof (inductive invariant over all schedules of a small-step model) + lock-step co-simulation of the real server"},
+  "technique": "Lean 4 proof (inductive invariant over all schedules of a small-step model) + lock-step co-simulation of the real server + structural skeleton of the concurrent code regenerated from the source (translator) and compared by theorem"},
  "C17": {
   "text": "Lean theorems c17_emits (after a False availability answer the next steps are forced: the id read is the executing subscription's, the EOS line is built with it and enqueued before subscribe() begins), c17_branch (only False leads there), c17_raises (query raises => error reply, no subscribe), c17_executor_is_current. Proof: Conc/InvProof.lean shows the ~45-clause invariant Inv inductive for every action of the per-item machine (inv_reach: every "
           "state reachable by any schedule / arrival timing / adapter outcomes with a well-formed history satisfies Inv); the property theorems "
@@ -173,7 +173,7 @@ CHECKS = {
           "enabled threads and the invariant compared after every chunk), fine-grained line-level-preemption runs with trace oracles.",
   "ref": "DESIGN.md §0a, §3, §5 C17",
   "note": "trusted: Lean kernel; Conc/Item.lean hand-written (tied by co-simulation); scheduler shim; WF hypothesis on the request history",
-  "technique": "Lean 4 proof (inductive invariant over all schedules of a small-step model) + lock-step co-simulation of the real server"},
+  "technique": "Lean 4 proof (inductive invariant over all schedules of a small-step model) + lock-step co-simulation of the real server + structural skeleton of the concurrent code regenerated from the source (translator) and compared by theorem"},
  "C19": {
   "text": "Lean theorems c19_unsub (at quiescence, last request an unsubscription => item not registered), c19_dead_generations_empty (every unregistered generation of bookkeeping is empty and unreferenced, in every reachable state), c19_probe_dropped, c19_live (last request a subscription => exactly its id is published). Thorough tier adds a real-thread census test over 5,000 one-shot items. Proof: Conc/InvProof.lean shows the ~45-clause invariant Inv inductive for every action of the per-item machine (inv_reach: every "
           "state reachable by any schedule / arrival timing / adapter outcomes with a well-formed history satisfies Inv); the property theorems "
@@ -181,5 +181,5 @@ CHECKS = {
           "enabled threads and the invariant compared after every chunk), fine-grained line-level-preemption runs with trace oracles.",
   "ref": "DESIGN.md §0a, §3, §5 C19",
   "note": "trusted: Lean kernel; Conc/Item.lean hand-written (tied by co-simulation); scheduler shim; WF hypothesis on the request history",
-  "technique": "Lean 4 proof (inductive invariant over all schedules of a small-step model) + lock-step co-simulation of the real server"},
+  "technique": "Lean 4 proof (inductive invariant over all schedules of a small-step model) + lock-step co-simulation of the real server + structural skeleton of the concurrent code regenerated from the source (translator) and compared by theorem"},
 }
